@@ -485,6 +485,20 @@ def secp_rows(tier, seed, only=None):
                              "r": jac(_safe(lambda: m.jacobian_double(a)))})
                 rows.append({"m": "secp256k1", "c": ci, "rep": "jac", "op": "fromjac", "P": jac(a),
                              "r": plain(_safe(lambda: m.from_jacobian(a)))})
+        # representatives whose integers are NOT reduced into 0..p-1 (negative scaling, coordinates shifted by p)
+        def unreduced(R):
+            x, y = R
+            return [(x, -y, -1), (4 * x, -8 * y, -2), (x * 9 % p + p, y * 27 % p - p, 3 + p), (x - 2 * p, y + p, 1)]
+        for P in (pts if not quick else rng.sample(pts, 6)):
+            Q = rng.choice(pts)
+            for a in unreduced(P):
+                rows.append({"m": "secp256k1", "c": ci, "rep": "jac", "op": "jdouble", "P": jac(a),
+                             "r": jac(_safe(lambda: m.jacobian_double(a)))})
+                rows.append({"m": "secp256k1", "c": ci, "rep": "jac", "op": "fromjac", "P": jac(a),
+                             "r": plain(_safe(lambda: m.from_jacobian(a)))})
+                for b in unreduced(P)[:2] + unreduced(Q)[:2] + [(P[0], (-P[1]) % p, 1), (P[0], P[1], 1)]:
+                    rows.append({"m": "secp256k1", "c": ci, "rep": "jac", "op": "jadd", "P": jac(a),
+                                 "Q": jac(b), "r": jac(_safe(lambda: m.jacobian_add(a, b)))})
         sub = allp if not quick else [(0, 0)] + rng.sample(pts, 14)
         for P in sub:
             for Q in sub + [P, (P[0], (-P[1]) % p)]:
